@@ -190,6 +190,14 @@ def h_concrete(ctx, case):
         _wf_finite(ctx, case, Y, [2, 2, 2])
         Y = teneva.als(I, y * 0., teneva.rand([2, 2, 2], 2, seed=7), nswp=2)
         _wf_finite(ctx, case + '_zero', Y, [2, 2, 2])
+    elif case == 'cross_growth_above_available_rows':
+        # requested rank growth (dr_min >= 2) larger than the rows an almost square unfolding can still give
+        T = teneva.rand([4, 4, 4], 2, seed=2)
+        for dr in ((2, 2), (2, 3), (3, 3)):
+            Y = teneva.cross(lambda I: teneva.get_many(T, I), teneva.rand([4, 4, 4], 1, seed=1), nswp=3, dr_min=dr[0], dr_max=dr[1])
+            _wf_finite(ctx, case, Y, [4, 4, 4])
+        Y = teneva.cross(lambda I: np.ones(len(I)), teneva.rand([2, 2, 2], 1, seed=1), nswp=2, dr_min=2, dr_max=2)
+        _wf_finite(ctx, case + '_mode2', Y, [2, 2, 2])
     elif case == 'als_tiny_lamb':
         # regularisation lost in rounding (or switched off) with rank-deficient local problems
         I = np.array([[0, 0, 1], [1, 1, 0], [0, 0, 1], [1, 0, 0], [0, 1, 1], [0, 0, 1]])
@@ -248,7 +256,7 @@ def instances(tier):
     for dup in (False, True):
         out.append({'func': 'h_als_small', 'params': {'dup': dup}})
     for case in ['cancelling_zero', 'cross_zero', 'cross_const', 'cross_d2_mode1', 'truncate_overranked', 'truncate_zero_generic',
-                 'rank_deficient_generic', 'als_constant_repeated', 'als_tiny_lamb', 'qtt_redundant_mode2', 'anova_constant',
+                 'rank_deficient_generic', 'cross_growth_above_available_rows', 'als_constant_repeated', 'als_tiny_lamb', 'qtt_redundant_mode2', 'anova_constant',
                  'cheb_constant']:
         out.append({'func': 'h_concrete', 'params': {'case': case}, 'opts': {'concrete_only': True}})
     return out
